@@ -3,6 +3,7 @@ import ChythonModel.Proofs.C01Chiral
 import ChythonModel.Proofs.C01Check
 import ChythonModel.Proofs.C01Rename
 import ChythonModel.Proofs.C01ChiralFull
+import ChythonModel.Proofs.C01RenameCum
 /-!
 # C01 — canonical SMILES, equality and hash depend on structure only
 
@@ -364,6 +365,26 @@ theorem chiral_full_invariant_of_inequivalent_elements (h : TupleHash) (single d
   cases he with
   | some hrr => exact .ranks hrr
 
+open ChythonModel.Model.ChiralFull in
+/-- **`MoleculeStereo.cumulenes` never depends on the atom numbers**: renaming every atom by an injective `π` (insertion
+    orders kept) renames every chain, same chains in the same order — through the mutable `adj` / `terminals` walk, its
+    `break` branch and every error outcome -/
+theorem cumulenes_renaming_equivariant (dbl : Nat → Bool) {π : Nat → Nat} (hπ : Function.Injective π) (mol : MolView) :
+    cumulenes dbl (renMol π mol) = (cumulenes dbl mol).map (List.map (List.map π)) :=
+  cumulenes_rename dbl hπ mol
+
+open ChythonModel.Model.ChiralMorgan ChythonModel.Model.ChiralFull in
+/-- **the stereo-aware classes with tetrahedral, cis/trans and allene labels never depend on the atom numbers** — including
+    the R/S-pair updates of all three blocks for equivalent elements, the `min(…, key=morgan.get)` choices, the
+    `mn <= mm` choice of the terminal, every `KeyError` and every `notModelled` answer: renaming every atom by an injective
+    `π` (insertion orders and stored label signs kept, which is what `Graph.remap` does) renames the result as the *same
+    dict* (equal lists, order included), for every hash function (exact naturality of every function of
+    `Model/C01Chiral.lean`: `Proofs/C01RenameDiff.lean`, `Proofs/C01RenameCum.lean`). -/
+theorem chiral_full_renaming_equivariant (h : TupleHash) (single dbl : Nat → Bool) {π : Nat → Nat}
+    (hπ : Function.Injective π) (mol : MolView) (labels : List (Nat × Bool)) :
+    chiralFull h single dbl (renMol π mol) (mapKeys π labels) = renOutcome π (chiralFull h single dbl mol labels) :=
+  chiralFull_rename h single dbl hπ mol labels
+
 /-! ## no exception on well-formed input; `Element.__hash__` never hashes `None` -/
 
 /-- (regenerated table) every optional attribute in `Element.__hash__` is written `… or 0` -/
@@ -606,6 +627,10 @@ example : ChiralFull.chiralFull toyHash (fun _ => true) dblT (exEZ true) [] =
 /-- … an E/Z pair splits every class (the R/S-pair update of the cis/trans block) -/
 example : ChiralFull.chiralFull toyHash (fun _ => true) dblT (exEZ false) [] =
     .ranks [(1, 1), (5, 2), (4, 3), (8, 4), (2, 5), (6, 6), (3, 7), (7, 8)] := by decide +kernel
+
+/-- the renamed E/Z pair gives the renamed result (instance of `chiral_full_renaming_equivariant`, evaluated) -/
+example : ChiralFull.chiralFull toyHash (fun _ => true) dblT (renMol (· + 10) (exEZ false)) [] =
+    .ranks [(11, 1), (15, 2), (14, 3), (18, 4), (12, 5), (16, 6), (13, 7), (17, 8)] := by decide +kernel
 
 /-- two components penta-2,3-diene CH3–CH=C=CH–CH3, labels on the two allene centres -/
 def exAl : MolView :=
